@@ -535,6 +535,11 @@ func ruleC11Verbatim(c *Ctx) {
 	}
 	ok := noPathAvoidingSuccess(parse, fi, isGrammar, emptyEdge)
 	c.Check(ok, "C11.VERBATIM", FnName(parse)+": only through the grammar", p.Pos(parse.Pos()), "every query ast.Parse returns was produced by the zitiql parser (the empty filter excepted)", "ast.Parse can return a query without running the zitiql parser: a shortcut that interprets filter text itself does not decode string literals the way the grammar does")
+	// (c) ... and rejects only what the grammar rejects: no return at all (also no error) comes before the
+	// parser has seen the text — a pre-check that scans for quotes or brackets itself has its own idea of where
+	// a string literal ends (an escaped backslash before the closing quote)
+	okAll := noPathAvoiding(parse, isGrammar, emptyEdge)
+	c.Check(okAll, "C11.VERBATIM", FnName(parse)+": rejected only by the grammar", p.Pos(parse.Pos()), "every return of ast.Parse — success or error — comes after the zitiql parser ran (the empty filter excepted)", "ast.Parse can return (an error) before the zitiql parser has seen the text: a hand-written pre-check decides which texts are acceptable, and its reading of string literals is not the grammar's")
 }
 
 func calleeOf2(in ssa.Instruction) (*types.Func, bool) {
